@@ -1641,45 +1641,100 @@ def interrupt_mapper(ctx):
 
 
 def S5_interrupt_map(ctx, rule):
+    """interrupt mapping Interrupted(x) -> (x, true), NoInterrupt(x) -> (Some(x), false), decided per path through the
+    mapping function (so `match`, `if let`, `matches!` + second match are all the same to it)"""
     b = interrupt_mapper(ctx)
     if b is None:
         ctx.unverifiable(rule, "interrupt-map", "-", "interrupt mapping function (PollOutcome -> (Option<id>, bool)) not found")
         return
-    # for each arm: flag constant and id provenance
-    ok_arms = {}
-    for bb, si, s in b.stmts():
-        if s["k"] == "assign" and s["rv"]["k"] == "agg" and s["rv"]["ak"] == "tuple" and len(s["rv"]["ops"]) == 2:
-            flag = s["rv"]["ops"][1]
-            idop = s["rv"]["ops"][0]
-            arm = None
-            for sb, vals in guards_of(b, bb):
-                de = switch_expr(b, sb)
-                if de.kind == "discr":
-                    vs = [v for v in vals if v != "otherwise"]
-                    if len(vs) == 1 and len(vals) == 1:
-                        arm = int(vs[0])
-            if arm is None or flag["k"] != "const":
-                continue
-            ide = strip_refs(expr_operand(b, idop))
-            ok_arms[arm] = (flag.get("bits", flag.get("val")), fmt_expr(ide, b), m_is_payload(ide))
-    adt_names = {0: "Interrupted", 1: "NoInterrupt"}
-    # PollOutcome variant order is defined in the `interruptible` crate: read it from the downcast names
+    from rules_build import path_conditions
+    from analysis import expr_rvalue
+    defs = get_defs(b)
+    # variant names from the downcasts in the body
     names = {}
     for bb, si, s in b.stmts():
         if s["k"] == "assign":
-            for pr in (s["rv"].get("op", {}).get("pl", {}) or {}).get("p", []) if s["rv"]["k"] == "use" else []:
-                if isinstance(pr, dict) and "d" in pr and "name" in pr:
-                    names[pr["d"]] = pr["name"]
-    good = True
+            pls = []
+            rv = s["rv"]
+            if rv["k"] == "use" and rv["op"]["k"] != "const":
+                pls.append(rv["op"]["pl"])
+            if rv["k"] == "agg":
+                pls += [o["pl"] for o in rv["ops"] if o["k"] != "const"]
+            if rv["k"] in ("ref", "discr"):
+                pls.append(rv["pl"])
+            for pl in pls:
+                for pr in pl["p"]:
+                    if isinstance(pr, dict) and "d" in pr and "name" in pr:
+                        names[str(pr["d"])] = pr["name"]
+    # the returned tuple(s)
+    seen = {}
     desc = []
-    for arm, (flag, ide, payload) in sorted(ok_arms.items()):
-        nm = names.get(arm, "?")
-        desc.append("%s -> (%s, %s)" % (nm, ide, flag))
-        want = {"Interrupted": "1", "NoInterrupt": "0"}.get(nm)
-        fl = "1" if str(flag) in ("1", "true") else "0"
-        if want is None or fl != want or not payload:
+    good = True
+    for kind, rbb, rsi, x in defs.of(0):
+        if kind != "stmt" or x["rv"]["k"] != "agg" or x["rv"]["ak"] != "tuple" or len(x["rv"]["ops"]) != 2:
             good = False
-    ctx.check(good and len(ok_arms) == 2, rule, "interrupt-map", ctx.model.where(b),
+            desc.append("result is not built as a (id, flag) tuple at %s" % b.loc(rbb))
+            continue
+        idop, flag = x["rv"]["ops"]
+        watch = [o["pl"]["l"] for o in (idop, flag) if o["k"] != "const" and not o["pl"]["p"]]
+        sym_bb = {}
+        pcs = path_conditions(b, rbb, sym_bb=sym_bb, watch=watch)
+        if not pcs:
+            good = False
+            desc.append("cannot enumerate the paths of the mapping")
+            continue
+        for pc in pcs:
+            # which PollOutcome variant is this path for
+            var = None
+            for sym, v in pc.items():
+                if isinstance(sym, tuple) and sym[0] == "discr" and sym_bb.get(sym):
+                    sb = sorted(sym_bb[sym])[0]
+                    d = defs.unique_full(b.blocks[sb]["term"]["discr"].get("pl", {}).get("l", -1))
+                    if d and d[0] == "stmt" and d[3]["rv"]["k"] == "discr" and "PollOutcome" in d[3]["rv"]["pl"]["ty"]:
+                        if v == "otherwise":
+                            listed = {vv for vv, _ in b.blocks[sb]["term"]["targets"]}
+                            rest = [k for k in names if k not in listed]
+                            var = names.get(rest[0]) if len(rest) == 1 else None
+                        else:
+                            var = names.get(v)
+            # flag value on this path
+            if flag["k"] == "const":
+                fv = str(flag.get("bits", flag.get("val")))
+            else:
+                sv = pc.get("$L%d" % flag["pl"]["l"])
+                fv = str(sv[1]) if sv and sv[0] == "const" else "?"
+            fv = "1" if fv in ("1", "true") else ("0" if fv in ("0", "false") else "?")
+            # id value on this path
+            if idop["k"] == "const":
+                payload = False
+                ide = "const"
+            else:
+                sv = pc.get("$L%d" % idop["pl"]["l"]) if not idop["pl"]["p"] else None
+                if sv and sv[0] == "opnd":
+                    ide_e = strip_refs(expr_operand(b, b.blocks[sv[1]]["stmts"][sv[2]]["rv"]["ops"][sv[3]]))
+                elif sv and sv[0] == "assigned":
+                    ex = None
+                    for si2, s2 in enumerate(b.blocks[sv[1]]["stmts"]):
+                        if s2["k"] == "assign" and s2["pl"]["l"] == sv[2] and not s2["pl"]["p"]:
+                            ex = expr_rvalue(b, s2["rv"], 0, (sv[1], si2))
+                    ide_e = strip_refs(ex) if ex is not None else strip_refs(expr_operand(b, idop))
+                else:
+                    ide_e = strip_refs(expr_operand(b, idop))
+                payload = m_is_payload(ide_e)
+                ide = fmt_expr(ide_e, b)
+                # the payload must be the one of the variant of this path
+                dn = [x2[2] for x2 in walk_expr(ide_e) if x2.kind == "downcast" and x2[2] in ("Interrupted", "NoInterrupt")]
+                if var is not None and dn and dn[0] != var:
+                    payload = False
+            key = (var, fv, payload)
+            if key not in seen:
+                seen[key] = True
+                desc.append("%s -> (%s, %s)" % (var, ide, fv))
+            want = {"Interrupted": "1", "NoInterrupt": "0"}.get(var)
+            if want is None or fv != want or not payload:
+                good = False
+    vars_seen = {k[0] for k in seen}
+    ctx.check(good and vars_seen == {"Interrupted", "NoInterrupt"}, rule, "interrupt-map", ctx.model.where(b),
               "interrupt mapping: Interrupted(x) -> (x, true), NoInterrupt(x) -> (Some(x), false)",
               "interrupt mapping is %s" % desc)
 
